@@ -164,6 +164,34 @@ Fixpoint key_cmp (a b : key) : comparison :=
   | x :: a', y :: b' => match atom_cmp x y with Eq => key_cmp a' b' | c => c end
   end.
 
+(* Tie-break of the spill comparator (groupby.keyIdentity): after all keys have
+   been compared by value, each key is compared again by an encoding of its type
+   and bytes, so that two keys compare equal only if they are identical.  The
+   model orders identities by constructor, type tag and value; which total order
+   is used is immaterial for the result as a multiset. *)
+Definition atom_rank4 (a : atom) : N :=
+  match a with ANum _ _ => 0 | AStr _ => 1 | ANull _ => 2 | AMissing => 3 end%N.
+
+Definition atom_id_cmp (a b : atom) : comparison :=
+  match a, b with
+  | ANum t x, ANum u y => match N.compare t u with Eq => Z.compare x y | c => c end
+  | AStr x, AStr y => bytes_cmp x y
+  | ANull t, ANull u => N.compare t u
+  | _, _ => N.compare (atom_rank4 a) (atom_rank4 b)
+  end.
+
+Fixpoint key_id_cmp (a b : key) : comparison :=
+  match a, b with
+  | [], [] => Eq
+  | [], _ :: _ => Lt
+  | _ :: _, [] => Gt
+  | x :: a', y :: b' => match atom_id_cmp x y with Eq => key_id_cmp a' b' | c => c end
+  end.
+
+(* keysComparator of the Aggregator: keys by value, then keys by identity *)
+Definition spill_cmp (a b : key) : comparison :=
+  match key_cmp a b with Eq => key_id_cmp a b | c => c end.
+
 (* ------------------------------------------------------------------ aggregates *)
 (* result of a mathReducer over an int64 column *)
 Inductive zres := RNone (* no value of a numeric type seen: null *)
@@ -251,6 +279,11 @@ Definition to_rows (xs : list rec_in) : list (key * st) :=
   map (fun '(k, a, b) => (k, st_inj a b)) xs.
 
 Definition groupby_model (limit : N) (xs : list rec_in) : list (key * st) :=
+  groupby key_eqb spill_cmp st_op st0 limit (to_rows xs).
+
+(* the operator before the tie-break was added (spill comparator = key_cmp only),
+   kept to show why the tie-break is necessary *)
+Definition groupby_model_value_order (limit : N) (xs : list rec_in) : list (key * st) :=
   groupby key_eqb key_cmp st_op st0 limit (to_rows xs).
 
 (* naive evaluation: group by key identity, fold Consume over the group's records in input order *)
